@@ -259,6 +259,29 @@ def run(repo, rep, tier):
     if obs:
         rep.note('observation (SSH-1 table, out of rule 4 scope per DESIGN): no failure row for ' + ', '.join(obs))
 
+    # ---- rule 4b: built-in policies against the host-key probe's own thresholds -----------------------------------------------
+    # "a peer configured exactly per a built-in policy shows no failure in a standard audit": the sizes a policy prescribes for each
+    # host-key type (and its CA) are run through the size-rating block of HostKeyTest.perform_test (abstract evaluation of that block,
+    # shared with C11); no entry may draw a failure note, and no entry of the probe table may be rated with thresholds of another family.
+    from props import _hostkey_rating
+    hk_consts = _hostkey_rating.class_consts(repo, ce, 'hostkeytest', 'HostKeyTest')
+    _pt, _blk = _hostkey_rating.rating_block(repo)
+    rep.saw(_pt)
+    probe_table = hk_consts.get('HostKeyTest.HOST_KEY_TYPES') or {}
+    nrated = 0
+    for pname, p in sorted(pol.items()):
+        w = 'policy %s:' % pname
+        for nm, v in sorted((p.get('hostkey_sizes') or {}).items()):
+            if not isinstance(v, dict) or nm not in probe_table:
+                continue
+            cert = bool(probe_table[nm].get('cert'))
+            fails, warns = _hostkey_rating.rate_key(_blk, hk_consts, nm, cert, v.get('hostkey_size', 0), v.get('ca_key_type', '') or '', v.get('ca_key_size', 0) or 0, on_eval=rep.evals)
+            nrated += 1
+            rep.check('policy-no-fail', '%s %s at the prescribed sizes draws no failure from the host-key probe' % (w, nm), not fails, polnode,
+                      'a server configured exactly per built-in policy %r is failed by the host-key probe: %s (%s bits%s) -> %s' % (pname, nm, v.get('hostkey_size'), (', %s CA %s bits' % (v.get('ca_key_type'), v.get('ca_key_size'))) if v.get('ca_key_type') else '', fails[:1]),
+                      stmt='%s probe rating %s' % (w, nm), func='builtin_policies:BUILTIN_POLICIES')
+    rep.floor('policy-no-fail', 'policy size entries rated through the probe thresholds', nrated, 50)
+
     # ---- rule 5: policy table shape -----------------------------------------------------------------
     REQ = {'version', 'changelog', 'banner', 'compressions', 'host_keys', 'optional_host_keys', 'kex', 'ciphers', 'macs', 'hostkey_sizes', 'dh_modulus_sizes', 'server_policy'}
     rep.floor('policy-shape', 'built-in policies', len(pol), 40)
